@@ -101,12 +101,16 @@ def w_model(ctx, rng, idx, param):
     if alt is not None and rng.random() < 0.6:
         call('models.' + name, fn, *alt, prop=P, tags=['model=' + name, 'neighbour_call'])
     ok, res = call('models.' + name, fn, *args, prop=P, tags=['model=' + name])
-    if alt is not None and rng.random() < 0.4:
+    if rng.random() < 0.4:
         # the caller changes what it was handed (documented in-place operations on the returned trains / arrays) and asks again:
         # the second answer must be a fresh, correct one
         if ok:
             scribble(rng, res)
         call('models.' + name, fn, *args, prop=P, tags=['model=' + name, 'repeated_call'])
+        if rng.random() < 0.6:
+            # ... and other constructors after that: whatever two constructors share (tables, core lists) must not carry the scribbling over
+            other = OTHERS[int(rng.integers(0, len(OTHERS)))]
+            call('models.' + other[0], getattr(mdl, other[0]), *other[1], prop=P, tags=['model=' + other[0], 'after_scribbling_on_' + name])
     if idx % 37 == 0:
         ctx.sample({'workload': 'models', 'model': name, 'args': [repr(a)[:60] for a in param[1]]})
 
@@ -124,6 +128,27 @@ def w_circuit_history(ctx, rng, idx):
         ctx.sample({'workload': 'circuit_history', 'calls': [list(sq) for sq in seq]})
 
 
+def w_related(ctx, rng, idx):
+    """constructors that build related circuits (adder / chain of adders, transform / inverse transform) called one after the other, the
+    caller changing each result in place (documented in-place methods, core assignment) before the next constructor is asked"""
+    fam = [[('qfa', ()), ('qfan', (2,)), ('qfan', (3,)), ('qfa', ()), ('qfan', (1,))],
+           [('qft', (4,)), ('iqft', (4,)), ('qft', (4,)), ('iqft', (3,)), ('qft', (5,))],
+           [('cantor_dust', (2, 1)), ('multisponge', (2, 1)), ('vicsek_fractal', (2, 1)), ('cantor_dust', (2, 2))],
+           [('signaling_cascade', (2,)), ('two_step_destruction', (1.0, 2.0, 1.0, 2)), ('co_oxidation', (2, 1e4, True)), ('signaling_cascade', (3,))]][idx % 4]
+    order = list(rng.permutation(len(fam)))
+    ctx.describe({'model': 'related constructors', 'calls': [list(fam[i]) for i in order]})
+    for i in order:
+        name, a = fam[i]
+        ok, res = call('models.' + name, getattr(mdl, name), *a, prop=P, tags=['model=' + name, 'related_sequence'])
+        if ok:
+            scribble(rng, res)
+
+
+OTHERS = [('qfa', ()), ('qfan', (1,)), ('qfan', (2,)), ('qfan', (3,)), ('qft', (3,)), ('iqft', (3,)), ('qft', (5,)), ('iqft', (4,)), ('simon', ()), ('shor', (7,)), ('shor', (11,)),
+          ('signaling_cascade', (2,)), ('toll_station', (2, 1)), ('cantor_dust', (1, 2)), ('multisponge', (2, 1)), ('vicsek_fractal', (2, 1)), ('two_step_destruction', (1.0, 2.0, 1.0, 2)),
+          ('co_oxidation', (2, 1e4, True)), ('exciton_chain', (3, 0.1, -0.01)), ('ising', (3, 1.0, 0.5)), ('fpu_coefficients', (2,))]
+
+
 def rgb_matrix(rng, n):
     """primaries of different dtypes: float64, float32, integer / boolean masks"""
     k = int(rng.integers(0, 5))
@@ -132,7 +157,7 @@ def rgb_matrix(rng, n):
     if k == 1:
         return rng.random((n, n)) < 0.5
     if k == 2:
-        return rng.random((n, n)).astype(np.float32)
+        return rng.random((n, n)).astype([np.float32, np.float16][int(rng.integers(0, 2))])
     return rng.random((n, n))
 
 
@@ -143,10 +168,15 @@ def scribble(rng, res):
         for t in items:
             try:
                 if hasattr(t, 'cores'):
-                    if rng.random() < 0.5:
+                    u = rng.random()
+                    if u < 0.3:
                         t.cores[0] = t.cores[0] * 2.0
-                    else:
+                    elif u < 0.6:
                         t.cores[-1][...] = 0
+                    elif u < 0.8:
+                        t.ortho()
+                    else:
+                        t.transpose(overwrite=True)
                 elif isinstance(t, np.ndarray) and t.flags.writeable:
                     t[...] = 0
             except Exception:
@@ -184,7 +214,15 @@ def alternative(rng, name, a):
 
 def w_random(ctx, rng, idx):
     """random parameters of the continuous-parameter models"""
-    k = idx % 5
+    k = idx % 6
+    if k == 5:
+        n, L = int(rng.integers(1, 4)), int(rng.integers(1, 4))
+        while n ** (2 * L) > 20000:
+            L -= 1
+        a = tuple(rgb_matrix(rng, n) for _ in range(3)) + (L,)  # (primaries of independent dtypes)
+        ctx.describe({'model': 'rgb_fractal', 'args': [str(x.dtype) for x in a[:3]] + [L]})
+        call('models.rgb_fractal', mdl.rgb_fractal, *a, prop=P, tags=['model=rgb_fractal'])
+        return
     if k == 0:
         a = (int(rng.integers(2, 5)), float(10 ** rng.uniform(-2, 10)), bool(rng.integers(0, 2)))
         name = 'co_oxidation'
@@ -207,6 +245,7 @@ def w_random(ctx, rng, idx):
 
 WORKLOADS = [
     Workload('circuit_history', w_circuit_history, 8, 32),
+    Workload('related', w_related, 8, 40),
     Workload('models', w_model, None, None, enum=enum_models),
     Workload('random_parameters', w_random, 100, 1500),
 ]
